@@ -69,7 +69,7 @@ def real_state(dt=None, timestep=0, timestamp=None, alive=None, **arrays):
 
 class LinEnv:
     """depth = h0 + hx*x + hy*y ; wvel = w0 + wz*z ; vdiff(z) profile (0 const k0 | 1 linear k0+k1*z |
-    2 step k0 if z<zs else k1) ; hdiff = a0 + ax*x + ay*y ; metric dx ; ingrid box ;
+    2 step k0 if z<zs else k1) ; hdiff = a0 + ax*x + ay*y ; metric (dx, dy) ; ingrid box ;
     is_close_to_land = x < coastx (optional, not part of the driver's EnvSpec: the harness decides who is re-seeded) ;
     temp = t0 + tz*z ; salt = s0 + sz*z ; bottom velocity (ub, vb) constant ;
     lonlat = (lon0 + lonx*x, lat0 + laty*y) (optional slopes, default 0; not part of the driver's EnvSpec) ;
@@ -79,9 +79,11 @@ class LinEnv:
     def __init__(self, h0=50.0, hx=0.0, hy=0.0, w0=0.0, wz=0.0, kkind=0, k0=0.0, k1=0.0, zs=0.0,
                  a0=0.0, ax=0.0, ay=0.0, dx=100.0, xmin=1.0, xmax=20.0, ymin=1.0, ymax=20.0,
                  t0=8.0, tz=0.0, s0=34.0, sz=0.0, ub=0.0, vb=0.0, lon0=5.0, lat0=60.0, coastx=None,
-                 lonx=0.0, laty=0.0, tx=0.0, sx=0.0, dxx=0.0):
+                 lonx=0.0, laty=0.0, tx=0.0, sx=0.0, dxx=0.0, dy=None):
         self.__dict__.update(locals())
         del self.__dict__["self"]
+        if dy is None:
+            self.dy = dx          # second component of sample_metric; same as the first unless given
         self.calls = []
 
     # ---- numpy side
@@ -107,9 +109,11 @@ class LinEnv:
 
     def metric(self, x, y):
         a = np.zeros_like(np.asarray(x, dtype=float)) + self.dx
+        b = np.zeros_like(np.asarray(x, dtype=float)) + self.dy
         if self.dxx != 0.0:
             a = a + self.dxx * np.asarray(x, dtype=float)
-        return a, a
+            b = b + self.dxx * np.asarray(x, dtype=float)
+        return a, b
 
     def ingrid(self, x, y):
         return ((self.xmin - 0.5 < x) & (x < self.xmax + 0.5) & (self.ymin - 0.5 < y) & (y < self.ymax + 0.5))
@@ -154,7 +158,7 @@ class LinEnv:
     # ---- driver side (order must match Driver/Chemicals.lean :: getEnvSpec)
     def toks(self):
         return " ".join([F(self.h0), F(self.hx), F(self.hy), F(self.w0), F(self.wz), I(self.kkind), F(self.k0),
-                         F(self.k1), F(self.zs), F(self.a0), F(self.ax), F(self.ay), F(self.dx),
+                         F(self.k1), F(self.zs), F(self.a0), F(self.ax), F(self.ay), F(self.dx), F(self.dy),
                          F(self.xmin), F(self.xmax), F(self.ymin), F(self.ymax)])
 
     def asdict(self):
